@@ -205,6 +205,10 @@ const (
 	// (TreeRows(NumLeaves - numAdds) while NumLeaves still counts the block's
 	// additions). It becomes the tree layout once the additions are rolled back.
 	crdPrev CrdSet = 8
+	// crdOther: the tree layout of some other leaf count of the map forest
+	// (TreeRows(NumLeaves + x)): neither the current tree layout nor a layout any
+	// stored or exchanged position is in.
+	crdOther CrdSet = 16
 )
 
 func (c CrdSet) String() string {
@@ -220,6 +224,9 @@ func (c CrdSet) String() string {
 	}
 	if c&crdPrev != 0 {
 		xs = append(xs, "tree-before-the-block")
+	}
+	if c&crdOther != 0 {
+		xs = append(xs, "tree-of-another-leaf-count")
 	}
 	if len(xs) == 0 {
 		return "unknown"
@@ -1880,10 +1887,13 @@ func (it *oInterp) rowsKindRec(v ssa.Value, seen map[ssa.Value]bool) CrdSet {
 	case *ssa.Call:
 		if sc := x.Common().StaticCallee(); sc != nil && it.p.owns(sc) && it.calleeName(sc) == "TreeRows" {
 			if len(x.Common().Args) == 1 {
-				if bo, ok := stripConvert(x.Common().Args[0]).(*ssa.BinOp); ok && bo.Op == token.SUB {
+				if bo, ok := stripConvert(x.Common().Args[0]).(*ssa.BinOp); ok {
 					if u, ok := stripConvert(bo.X).(*ssa.UnOp); ok && u.Op == token.MUL {
 						if fa, ok := u.X.(*ssa.FieldAddr); ok && fieldName(fa.X.Type(), fa.Field) == "NumLeaves" && it.p.localNamed(fa.X.Type(), "MapPollard") {
-							return crdPrev
+							if bo.Op == token.SUB {
+								return crdPrev
+							}
+							return crdOther
 						}
 					}
 				}
